@@ -102,6 +102,22 @@ uint32_t adfCountFreeBlocks ( const struct AdfVolume * const vol )
 
 
 /*
+ * adfHasFreeBlocks
+ *
+ * TRUE if at least n blocks are free (stops counting as soon as n are found)
+ */
+BOOL adfHasFreeBlocks ( const struct AdfVolume * const vol,
+                        const unsigned                 n )
+{
+    unsigned found = 0;
+    for ( int j = 2 ; found < n && j <= ( vol->lastBlock - vol->firstBlock ) ; j++ )
+        if ( adfIsBlockFree ( vol, j ) )
+            found++;
+    return ( found >= n );
+}
+
+
+/*
  * adfReadBitmap
  *
  */
